@@ -195,6 +195,7 @@ type fstep struct {
 	LastCreated  time.Time
 	Renamed      string // rename step: new (external) name of what was the active file
 	RenamedIno   uint64
+	Note         string // unformatted step: what the rejected event changed ("" = nothing)
 }
 
 type frun struct {
@@ -347,6 +348,30 @@ func (r *frun) exec(op fop, rng *rt.Rand) {
 		st.T0 = time.Now()
 		_, st.Err = r.Sink.Process(ctx, ev)
 		st.T1 = time.Now()
+	case "unformatted":
+		before := snapshot(r.Dir)
+		_, dirErr := os.Stat(r.Dir)
+		bw, lc := r.Sink.BytesWritten, r.Sink.LastCreated
+		variants := []*eventlogger.Event{
+			{Type: "t", CreatedAt: time.Now(), Formatted: map[string][]byte{"other": []byte("WRONG-FORMAT\n")}},
+			{Type: "t", CreatedAt: time.Now()},
+		}
+		ev := variants[rng.Intn(len(variants))]
+		st.T0 = time.Now()
+		_, st.Err = r.Sink.Process(ctx, ev)
+		st.T1 = time.Now()
+		after := snapshot(r.Dir)
+		_, dirErr2 := os.Stat(r.Dir)
+		switch {
+		case st.Err == nil:
+			st.Note = "Process returned nil for an event without a value in the sink's format"
+		case (dirErr == nil) != (dirErr2 == nil):
+			st.Note = "the rejected event created the sink's directory"
+		case fmt.Sprint(snapString(before)) != fmt.Sprint(snapString(after)):
+			st.Note = fmt.Sprintf("the rejected event changed the directory: %v -> %v", snapString(before), snapString(after))
+		case bw != r.Sink.BytesWritten || !lc.Equal(r.Sink.LastCreated):
+			st.Note = fmt.Sprintf("the rejected event changed the counters: BytesWritten %d -> %d, LastCreated %v -> %v", bw, r.Sink.BytesWritten, lc, r.Sink.LastCreated)
+		}
 	case "reopen":
 		st.T0 = time.Now()
 		st.Err = r.Sink.Reopen()
@@ -403,6 +428,9 @@ func genOps(r *rt.Rand, c fcfg, n int) []fop {
 	var ops []fop
 	for i := 0; i < n; i++ {
 		switch x := r.Intn(100); {
+		case x < 6:
+			// an event that has no value in the sink's format: rejected, and not a write
+			ops = append(ops, fop{Kind: "unformatted"})
 		case x < 72:
 			l := r.Range(8, 200)
 			if c.MaxBytes > 8 && r.Intn(3) == 0 {
